@@ -447,7 +447,7 @@ def check_case(ctx: runner.Ctx, case):  # noqa: C901, PLR0912, PLR0915
 
 
 def explore(ctx: runner.Ctx):
-    ctx.given(st_case(), lambda c: check_case(ctx, c), ctx.budget(6000, 150000))
+    ctx.given(st_case(), lambda c: check_case(ctx, c), ctx.budget(15000, 300000))
 
 
 RULE = ("cases = (model kind, fields with parameter kinds and defaults/factories from the look-alike pool, which optional "
